@@ -260,6 +260,31 @@ def run(repo, chk):
     chk.expect(bool(adv) and bool(rf) and all(any(g.dominates(r, a, idom) for r in rf) for a in adv), "R-C10-1b",
                "every time advance is dominated by `resolve = False` (no pause point inside a re-solve)", loc(rs), found=(len(adv), len(rf)))
 
+    # ------------------------------------------------------------ R-C10-4 initialisation agrees with the loop's own update
+    # the connectivity graph is loop-carried state: what a new simulator derives from the model at the start of a continued run must be what the
+    # uninterrupted run's update rule would have produced -- both encode a link from the same atoms (its status), nothing else
+    from .c09 import status_guards, status_encoding_table
+    ig_, ug_ = meths.get("_initialize_internal_graph"), meths.get("_update_internal_graph")
+    if ig_ is None or ug_ is None:
+        raise AnchorError("_initialize_internal_graph / _update_internal_graph vanished")
+    is_vals = lambda n: isinstance(n, ast.Call) and isinstance(n.func, ast.Attribute) and n.func.attr == "append" and unparse(n.func.value) == "vals"
+    is_data = lambda n: isinstance(n, ast.Assign) and (unparse(n.targets[0]).startswith("data[") or "_internal_graph" in unparse(n.targets[0]))
+    gi_ = status_guards(ig_, lambda n: is_vals(n) or is_data(n))
+    gu_ = status_guards(ug_, is_data)
+    if not gi_ or not gu_:
+        raise ExtractError("status encodings of the internal graph not found")
+
+    def atoms_of(guards):
+        out = set()
+        for gd in guards:
+            out |= set(status_encoding_table(gd.test)[2])
+        return out
+    ai, au = atoms_of(gi_), atoms_of(gu_)
+    chk.expect(ai == au, "R-C10-4", "the initial connectivity graph of a (continued) run is derived from the same link facts as the per-step update", loc(ig_, gi_[0]),
+               "a new simulator encodes links from %s in addition to the status, the update inside the loop from %s: a graph entry set from run-time flags at restart "
+               "is never refreshed by the update (it only reacts to status changes), so the continued run keeps a stale entry the uninterrupted run never had" % (sorted(ai) or "nothing", sorted(au) or "nothing"),
+               expected=sorted(au), found=sorted(ai))
+
     # ------------------------------------------------------------ R-C10-2 model-side state is plain picklable attributes
     rt_classes = [(BASE, "Node"), (BASE, "Link"), (ELEM, "Junction"), (ELEM, "Tank"), (ELEM, "Reservoir"), (ELEM, "Pipe"), (ELEM, "Pump"),
                   (ELEM, "HeadPump"), (ELEM, "PowerPump"), (ELEM, "Valve"), (MODEL, "WaterNetworkModel"), (CTRL, "TankLevelCondition"),
@@ -341,6 +366,8 @@ def run(repo, chk):
 
 
 WITNESSES = [
+    dict(name="restart-graph-from-isolation-flags", file=CORE, old="            if link.status == wntr.network.LinkStatus.Closed:\n                vals.append(0)",
+         new="            if link.status == wntr.network.LinkStatus.Closed or link._is_isolated:\n                vals.append(0)", rule="R-C10-4"),
     dict(name="rule-clock-reset-on-restart", file=CORE, old="            self._rule_iter = int(self._wn._prev_sim_time // self._wn.options.time.rule_timestep) + 1\n",
          new="            self._rule_iter = 1\n", rule="R-C10-1"),
     dict(name="isolated-sets-not-seeded", file=CORE,
